@@ -215,6 +215,11 @@ def make_cases(ctx, n_systems, n_orders):
             r = A.rename_per_component(rng, A.reorder(rng, b) if rng.random() < 0.5 else b)
             if A.parser_safe(r):
                 members.append(("renamed-per-component", r, "plain"))
+            for _, m, _ in members:
+                ids = [q["id"] for c in m["comps"] for q in c["eqs"]]
+                if len(ids) != len(set(ids)):
+                    # hypothesis unique_ids of C05_result_wf_dependencies_* / C05_direct_equations_topological_order
+                    raise RuntimeError("generated system with repeated equation ids: %r" % (ids,))
             groups.append({"base": b, "members": members})
     return groups
 
